@@ -65,7 +65,7 @@ def parse_results(files):
     return res
 
 def main():
-    res = parse_results(["/tmp/mut/results1.txt", "/tmp/mut/results2.txt", "/tmp/mut/results3.txt"])
+    res = parse_results(["/verif/seeded/logs/quick_checks_final.txt", "/verif/seeded/logs/quick_checks_after_strengthening.txt"])
     rows = []
     for mid, (what, needs) in sorted(SUMMARY.items()):
         pid, v = mid.split("-")
